@@ -48,6 +48,47 @@ theorem bdat_sender_framing (cs : Nat) (m : List Byte) (oracle : List Nat)
     have := hdrBytes_len_le cs p.length last this
     simp only [List.length_append]; omega
 
+/-- The frames of `bdat_sender_framing` are exactly what the independent frame parser of the executable
+predicate (`Spec.Bdat.parseFrame`: literal `BDAT `, canonical decimal, optional ` LAST`, CRLF) reads
+back: announced length = payload length, LAST on the final frame only, payloads as stated. -/
+theorem bdat_sender_frames_parse (pays : List (List Byte)) (h : pays ≠ []) :
+    ∃ fs, (framesOf pays).mapM parseFrame = some fs ∧ fs.map (·.pay) = pays ∧
+      (∀ f ∈ fs, f.n = f.pay.length) ∧ lastFlagsOk fs = true :=
+  parseFrames_framesOf pays h
+
+/-- For a message in which every CR is followed by LF (every valid message) the payload is *the*
+normalisation: each LF that does not follow a CR gets one, nothing else changes. -/
+theorem bdat_sender_payload_exact (cs : Nat) (m : List Byte) (oracle : List Nat)
+    (hfit : fitsHeader cs) (hm : m ≠ []) (hor : ∀ c ∈ oracle, c = Gen.bdatOkCode) (hcr : NoBareCR m) :
+    ∃ pays out, sendBdat cs m oracle = .ok out ∧ out.frames = framesOf pays ∧
+      pays.flatten = normalizeLf false m := by
+  obtain ⟨pays, out, h1, _, h3, _, _, _, _, h8⟩ := bdat_sender_framing cs m oracle hfit hm hor
+  exact ⟨pays, out, h1, h3, normOk_unique false m _ hcr h8⟩
+
+/-- The executable predicate that the check evaluates on the *implementation's* output accepts the
+model's output: the predicate is no weaker a notion than the theorem. -/
+theorem bdat_predicate_accepts_model (cs : Nat) (m : List Byte) (oracle : List Nat)
+    (hfit : fitsHeader cs) (hm : m ≠ []) (hor : ∀ c ∈ oracle, c = Gen.bdatOkCode) :
+    ∃ out, sendBdat cs m oracle = .ok out ∧ checkTx cs m "done" out.nreply out.frames = "holds" := by
+  obtain ⟨pays, out, h1, _, h3, h4, h5, h6, h7, h8⟩ := bdat_sender_framing cs m oracle hfit hm hor
+  obtain ⟨fs, p1, p2, p3, p4⟩ := parseFrames_framesOf pays h4
+  refine ⟨out, h1, ?_⟩
+  have hlen : fs.length = pays.length := by rw [← p2]; simp
+  have a1 : fs.all (fun f => decide (f.n = f.pay.length)) = true := by
+    rw [List.all_eq_true]; intro f hf; simpa using p3 f hf
+  have a2 : fs.all (fun f => decide (f.pay.length + lenlenOf cs ≤ cs)) = true := by
+    rw [List.all_eq_true]; intro f hf
+    have : f.pay ∈ pays := by rw [← p2]; exact List.mem_map_of_mem hf
+    simpa using h6 _ this
+  have a3 : out.frames.all (fun f => decide (f.length ≤ cs)) = true := by
+    rw [List.all_eq_true]; intro f hf; simpa using h7 f hf
+  unfold checkTx
+  rw [if_neg (by simp [hfit, hm]), if_neg (by simp), h3, p1]
+  simp only [a1, not_true_eq_false, if_false]
+  rw [← h3, if_neg (by simp [a2, a3])]
+  simp only [if_true, p4, not_true_eq_false, if_false]
+  rw [if_neg (by omega), p2, if_neg (by simp [h8])]
+
 /-- **No fault**, for every message (also the empty one) and every behaviour of the server. -/
 theorem bdat_terminates (cs : Nat) (m : List Byte) (oracle : List Nat) (hfit : fitsHeader cs) :
     ∃ out, sendBdat cs m oracle = .ok out ∧ out.fin ≠ .loops :=
